@@ -345,7 +345,36 @@ def _after(ctx, h, guard, call, loop):
     return top in loop.body and loop.body.index(guard) < loop.body.index(top)
 
 
+def r7(ctx, R):
+    R.rule("C12.R7", "USE associations of all enclosing scopes are merged by the USE-tree builder itself: inside the loop over scopes its result replaces the accumulator that was passed in", floor=1, confirmed=1)
+    gut = ctx.m.fn("get_use_tree")
+    h = handler(ctx)
+    scope = [h] + [g for g in ctx.m.funcs.values() if g.qual.startswith(h.qual + ".")]
+    n = 0
+    for f in scope:
+        for c in calls_in(f.node):
+            if ctx.m.enclosing_func(c) is not f or gut.qual not in ctx.r.resolve_call(f, c)[1]:
+                continue
+            lp = ctx.m.parent.get(ctx.m.enclosing_stmt(c))
+            while lp is not None and not isinstance(lp, (ast.For, ast.While, ast.FunctionDef)):
+                lp = ctx.m.parent.get(lp)
+            if not isinstance(lp, (ast.For, ast.While)):
+                continue
+            n += 1
+            st = ctx.m.enclosing_stmt(c)
+            acc = c.args[1] if len(c.args) > 1 else next((kw.value for kw in c.keywords if kw.arg == "use_dict"), None)
+            tgt = st.targets[0] if isinstance(st, ast.Assign) and st.value is c else None
+            k = key(f, st)[:90]
+            if tgt is not None and acc is not None and isinstance(acc, ast.Name) and unparse(tgt) == acc.id:
+                R.ok("C12.R7", f.short, k, loc(f, c), f"accumulator `{acc.id}` threaded through the builder")
+            else:
+                R.violation("C12.R7", f.short, k, loc(f, c), "each enclosing scope's USE tree is built separately and combined outside the builder: a second `use M, only: b` in an inner scope replaces the host's `use M` instead of being merged with it, so host-associated names of M are no longer offered")
+    if n == 0:
+        raise AnalysisError("completion does not build USE trees in its scope loop")
+
+
 def run(ctx, R):
+    r7(ctx, R)
     r6(ctx, R)
     r1(ctx, R)
     r2(ctx, R)
